@@ -161,13 +161,13 @@ def check_c05(scn):
             kind = e[2]
             if kind == "stop-begin":
                 stopping = True
-            elif kind == "gw" and e[4] == "LeaveGroup" and not stopping:
-                left_at = e[1]
+            elif kind == "gr" and e[4] == "LeaveGroup" and not stopping and e[5] and e[5][0] == 0:
+                left_at = e[1]  # from the instant the member has been told that it left (a lost reply leaves it in limbo)
             elif kind == "assign-begin":
                 left_at = None
             elif kind == "deliver" and left_at is not None:
                 scn.fail("revoked-silence", {"what": "delivered-after-leaving-group"},
-                         f"member c{i} returned {e[4]}@{e[5]} at t={e[1]} after it wrote LeaveGroup at t={left_at} and before a later "
+                         f"member c{i} returned {e[4]}@{e[5]} at t={e[1]} after its LeaveGroup was acknowledged at t={left_at} and before a later "
                          f"on_partitions_assigned")
     # 3. nothing fetched under a superseded assignment / subscription is delivered
     for i, evs in per.items():
